@@ -137,12 +137,27 @@ func harness_C10_spool() {
 			verifCover("C10.content-compared")
 		}
 		}
-		// next pending set
+		// next pending set: exactly the recipients whose own status in this
+		// attempt was a temporary or unclassified failure (computed from the
+		// scripted statuses, not read back from the spool)
+		var next []string
+		if dl.closed != "start-failed" {
+			for _, r := range pending {
+				if c := dl.statFault[r]; c == fTemp || c == fUnspec {
+					next = append(next, r)
+				}
+			}
+		} else {
+			next = pending
+		}
 		durable := qReadMeta(q, "msg1")
 		if durable == nil {
+			if len(next) != 0 && k < 3 {
+				verifFail("C10.pending-recipients-dropped")
+			}
 			break
 		}
-		pending = durable.To
+		pending = next
 	}
 	verifCover("C10.end")
 }
